@@ -99,6 +99,8 @@ pub fn compile<TCompilationProfile: CompilationProfile>(
     let db = &state.db;
     let config = db.get_isograph_config();
     let (artifacts, stats) = get_artifact_path_and_content(db)?;
+    #[cfg(isographlabs_isograph_verif)]
+    let artifacts = crate::write_artifacts::verif_fs::take_artifacts_override().unwrap_or(artifacts);
 
     let file_system_operations = get_file_system_operations(
         &artifacts,
